@@ -39,6 +39,8 @@ TRUSTED = [
     "compared by the oracle only (counted as float_gap)",
 ]
 CASE_TIMEOUT = 5.0
+MODULES = ["XknxVerif.Props.C39", "XknxVerif.Props.C39Modes"]
+NAMESPACES = ["XknxVerif.Props.C39"]
 
 T0 = 1_700_000_000.0
 
